@@ -345,7 +345,9 @@ func RunC07(w *Workload, st *Stats, maxYields uint64) *RunReport {
 		want := callFresh(rc.text, pristine, !rc.oneShot) // the other API path than the one under test
 		if want.Key() != rc.key {
 			// is the library deterministic at all for this call?
+			simrt.SetPolicy(rc.op.Pol)
 			again := callFresh(rc.text, MustDec(rc.docEnc), !rc.oneShot)
+			simrt.SetPolicy(rc.op.Pol)
 			third := callFresh(rc.text, MustDec(rc.docEnc), rc.oneShot)
 			if again.Key() != want.Key() || third.Key() != want.Key() {
 				rep.Inconclusive = fmt.Sprintf("library is nondeterministic for %q (see C15): %s vs %s vs %s", rc.text, trunc(want.Key(), 120), trunc(again.Key(), 120), trunc(third.Key(), 120))
@@ -579,7 +581,9 @@ func RunC06(w *Workload, st *Stats, maxYields uint64) *RunReport {
 		simrt.SetPolicy(rc.op.Pol)
 		want := callFresh(rc.text, MustDec(rc.docEnc), !rc.oneShot)
 		if want.Key() != rc.key {
+			simrt.SetPolicy(rc.op.Pol)
 			again := callFresh(rc.text, MustDec(rc.docEnc), !rc.oneShot)
+			simrt.SetPolicy(rc.op.Pol)
 			third := callFresh(rc.text, MustDec(rc.docEnc), rc.oneShot)
 			if again.Key() != want.Key() || third.Key() != want.Key() {
 				rep.Inconclusive = fmt.Sprintf("library is nondeterministic for %q (see C15)", rc.text)
@@ -787,6 +791,7 @@ func RunC15(w *Workload, st *Stats, maxYields uint64) *RunReport {
 			}
 			simrt.SetPolicy(pol)
 			a := callSearch(text, MustDec(docEnc))
+			simrt.SetPolicy(pol)
 			b := callFresh(text, MustDec(docEnc), false)
 			if a.Key() != b.Key() {
 				viol = &Violation{Prop: "C15", Class: "nondeterminism", Sig: "nondeterminism",
